@@ -1,40 +1,25 @@
 # C03 -- bbcbasic_to_text lists every well-formed program as doc/bbcbasic.5 defines
-DIALECT_NAMES = {0: "6502", 1: "Z80", 2: "ARM", 3: "Windows", 4: "Mac", 5: "PDP11"}
-INC = ["$REPO/basic"]
-
-def line_jobs(d, tier, cfgs=(("ndebug", ["NDEBUG"]),)):
-    js = []
-    for cname, cdefs in cfgs:
-        sfx = "_%s_%s" % (DIALECT_NAMES[d], cname)
-        defs = ["DIALECT=%d" % d] + cdefs
-        js.append(Job("L2_print_target" + sfx, "harness/basic_lines.c", "h_print_target",
-                      enforce=["print_target_line_number"], defines=defs, includes=INC, tier=tier,
-                      sentinel=None, cover=True))
-        js.append(Job("L2_count" + sfx, "harness/basic_lines.c", "h_count",
-                      enforce=["count"], loops=True, defines=defs, includes=INC, tier=tier,
-                      cbmc=["--unwindset", "h_fill_counts.0:257", "--unwinding-assertions"]))
-        js.append(Job("L2_handle_token" + sfx, "harness/basic_lines.c", "h_handle_token",
-                      enforce=["handle_token"], replace=["print_target_line_number"], defines=defs,
-                      includes=INC, tier=tier, cbmc=["--unwindset", "mon_str_is.0:6", "--unwinding-assertions"]))
-        js.append(Job("L2_decode_line" + sfx, "harness/basic_lines.c", "h_decode_line",
-                      enforce=["decode_line"], replace=["handle_token", "count"], loops=True,
-                      defines=defs, includes=INC, tier=tier,
-                      cbmc=["--unwindset", "h_fill_counts.0:257", "--unwinding-assertions"]))
-        be = d in (0, 2, 4, 5)
-        js.append(Job("L3_framing" + sfx, "harness/basic_lines.c", "h_decode_be" if be else "h_decode_le",
-                      enforce=["decode_big_endian_program" if be else "decode_little_endian_program"],
-                      replace=["decode_line"], loops=True, defines=defs + ["VERIF_NO_LINE_LEVEL"], includes=INC, tier=tier, cover=True,
-                      local_frame_ok=[("decode_little_endian_program", "ch")]))
-        js.append(Job("L1_table" + sfx, "harness/basic_tokens.c", "h_build_mapping",
-                      enforce=["build_mapping"], defines=defs, includes=INC, tier=tier, cover=True,
-                      cbmc=["--unwindset", "build_mapping.0:130,build_mapping.1:130,build_mapping.2:258,build_invalid_map.0:258,spec_streq.0:17",
-                            "--unwinding-assertions"], timeout=1500))
-    return js
+import sys, os
+sys.path.insert(0, os.path.dirname(os.path.abspath(__file__)))
+import basic_common as B
 
 def jobs(tier):
     js = []
-    for d in (0, 1):
-        js += line_jobs(d, "quick")
+    quick_d = (0, 1, 2, 5)          # 6502 (BE), Z80 (LE), ARM (extensions), PDP11 (0xC8 rule)
+    for d in range(6):
+        t = "quick" if d in quick_d else "thorough"
+        js += B.line_level(Job, d, B.CFG_NDEBUG, t)
+        js.append(B.framing(Job, d, B.CFG_NDEBUG, t))
+        js.append(B.table(Job, d, B.CFG_NDEBUG, "quick" if d in (0, 2) else "thorough"))
+        js.append(B.decode_file(Job, d, B.CFG_NDEBUG, t))
+        # assertions-on configuration: thorough
+        js += B.line_level(Job, d, B.CFG_ASSERT, "thorough")
+        js.append(B.framing(Job, d, B.CFG_ASSERT, "thorough"))
     return js
 
-META = {"trusted_base": [], "assumptions": [], "outside": []}
+META = {
+    "trusted_base": B.BASIC_TRUSTED,
+    "assumptions": ["input files of at most 16 MiB", "indentation monitor takes the weaker reading where the statement is silent (DESIGN.md C03)"],
+    "outside": ["equality of what the OS delivers through a file and through standard input (C03 last clause): both reach decode_file(dec, name, FILE*)"],
+    "explanation": "L1 table lemma (real build_mapping vs spec table), L2 line lemmas (print_target_line_number, count, handle_token, decode_line vs the line monitor), L3 framing lemma (program decoders vs the framing automaton, decode_line replaced by its contract), decode_file picks the decoder by dialect",
+}
